@@ -4,6 +4,7 @@
 import RdestModel.Lemmas.Trace
 import RdestModel.Lemmas.Bitfield
 import RdestModel.Props.C01
+import RdestModel.Lemmas.Adv
 set_option linter.unusedSimpArgs false
 set_option linter.unusedVariables false
 namespace Rdest.Props.C11
@@ -99,11 +100,341 @@ theorem T2_have_broadcast_only_for_owned (s s' : MState) (ev : Ev) (r : Reply) (
         · rw [modifyAt_getElem?]; split <;> simp [h1, incr]
   | _ => simp [broadcastHave] at hb
 
-/-- The full trace statement (monitor `P11`); evaluated on the model's and the implementation's trace of every
-    generated script, kernel proof for all scripts pending (the local theorems above are its core). -/
-def C11_trace_full : Prop :=
-  ∀ (sha1 : Bytes → Bytes) (s : HState) (script : List TIn), s.alive = true → s.choked = true → s.msgBuff = [] →
-    P11 (runTrace sha1 s script) = true
+/-! ### The whole trace: every script -/
+
+def R11 (st : M11) (s : HState) : Prop :=
+  st.alive = s.alive ∧ (s.alive = true → st.choked = s.choked ∧ st.buffered = s.msgBuff)
+
+theorem hvsO_flush (l : List Nat) : hvsO (l.map fun i => HOut.write (.haveP i)) = l := by
+  induction l with
+  | nil => rfl
+  | cons x xs ih => simp only [List.map_cons, hvsO, List.filterMap_cons] at ih ⊢; rw [ih]
+
+theorem bfsO_flush (l : List Nat) : bfsO (l.map fun i => HOut.write (.haveP i)) = [] := by
+  induction l with
+  | nil => rfl
+  | cons x xs ih => simp only [List.map_cons, bfsO, List.filterMap_cons] at ih ⊢; exact ih
+
+theorem wrO_flush (l : List Nat) : wrO (l.map fun i => HOut.write (.haveP i)) = l.map .haveP := by
+  induction l with
+  | nil => rfl
+  | cons x xs ih => simp only [List.map_cons, wrO, List.filterMap_cons] at ih ⊢; rw [ih]
+
+/-- `handle_unchoke`, precisely: the flush, the command, and then nothing that announces. -/
+theorem onUnchoke_adv (s : HState) (rep : Rep) (s' : HState) (o : List HOut) (c : Cont)
+    (h : onUnchoke s rep = some (s', o, c)) :
+    s'.msgBuff = [] ∧ s'.choked = false ∧ s'.alive = s.alive ∧
+    ∃ rest, o = s.msgBuff.map (fun i => HOut.write (.haveP i)) ++ [.cmd .recvUnchoke] ++ rest ∧ Quiet rest := by
+  unfold onUnchoke at h
+  simp only at h
+  split at h
+  · rename_i rd wi
+    cases h
+    obtain ⟨hk, hq⟩ := newPieceRequest_adv { s with choked := false, msgBuff := [] } wi rd
+    obtain ⟨_, ha, _⟩ := newPieceRequest_core { s with choked := false, msgBuff := [] } wi rd
+    exact ⟨hk.2, hk.1, ha, _, rfl, hq⟩
+  · cases h; exact ⟨rfl, rfl, rfl, _, rfl, ⟨rfl, rfl⟩⟩
+  · cases h; exact ⟨rfl, rfl, rfl, [], by simp, ⟨rfl, rfl⟩⟩
+  · cases h
+
+theorem quiet_cancels (i : Nat) (l : List (Nat × Nat)) : Quiet (l.map fun bl => HOut.write (.cancel i bl.1 bl.2)) := by
+  induction l with
+  | nil => exact ⟨rfl, rfl⟩
+  | cons x xs ih =>
+    obtain ⟨h1, h2⟩ := ih
+    simp only [List.map_cons]
+    exact ⟨by simp only [hvsO, List.filterMap_cons] at h1 ⊢; exact h1, by simp only [bfsO, List.filterMap_cons] at h2 ⊢; exact h2⟩
+
+theorem quiet_replicate_ka (n : Nat) : Quiet (List.replicate n (HOut.write Msg.keepAlive)) := by
+  induction n with
+  | zero => exact ⟨rfl, rfl⟩
+  | succ n ih =>
+    obtain ⟨h1, h2⟩ := ih
+    simp only [List.replicate_succ]
+    exact ⟨by simp only [hvsO, List.filterMap_cons] at h1 ⊢; exact h1, by simp only [bfsO, List.filterMap_cons] at h2 ⊢; exact h2⟩
+
+/-- Acceptance of a step that announces nothing, by a monitor branch that only looks at the announcements. -/
+theorem accept_quiet (sha1 : Bytes → Bytes) (st : M11) (s s' : HState) (inp : TIn) (o : List HOut) (e : Option Bool)
+    (hR : R11 st s) (ha : s.alive = true) (hq : Quiet o)
+    (hnotspecial : (∀ i rep, inp ≠ .bcHave i rep) ∧ (∀ rep d, inp ≠ .frame .choke rep d) ∧ (∀ rep d, inp ≠ .frame .unchoke rep d))
+    (hs' : s'.alive = e.isNone ∧ (e.isNone = true → Keep s s')) :
+    ∃ st', step11 st (inp, o.filterMap (obsOf sha1), e) = some st' ∧ R11 st' s' := by
+  obtain ⟨hRa, hRs⟩ := hR
+  obtain ⟨hc, hb⟩ := hRs ha
+  have hh : haveWrites (o.filterMap (obsOf sha1)) = [] := by rw [haveWrites_obs]; exact hq.1
+  have hbf : bitfieldWrites (o.filterMap (obsOf sha1)) = [] := by rw [bitfieldWrites_obs]; exact hq.2
+  have hlive : (!st.alive) = false := by rw [hRa, ha]; rfl
+  refine ⟨{ st with alive := e.isNone }, ?_, ?_⟩
+  · simp only [step11, hlive, Bool.false_eq_true, if_false, step11c, hbf, hh]
+    obtain ⟨h1, h2, h3⟩ := hnotspecial
+    cases inp with
+    | bcHave i rep => exact absurd rfl (h1 i rep)
+    | frame m rep d =>
+      cases m with
+      | choke => exact absurd rfl (h2 rep d)
+      | unchoke => exact absurd rfl (h3 rep d)
+      | handshake ih pid => cases rep <;> simp
+      | _ => simp
+    | start rep => cases rep <;> simp
+    | _ => simp
+  · refine ⟨hs'.1.symm, fun hal => ?_⟩
+    have he : e.isNone = true := by rw [← hs'.1]; exact hal
+    obtain ⟨k1, k2⟩ := hs'.2 he
+    exact ⟨by show st.choked = s'.choked; rw [k1]; exact hc, by show st.buffered = s'.msgBuff; rw [k2]; exact hb⟩
+
+end Rdest.Props.C11
+
+namespace Rdest.Props.C11
+open Rdest Rdest.Wire Rdest.Gen Rdest.Swarm
+
+
+/-- The bitfield written in reaction to a handshake is the one of the manager's reply. -/
+theorem onHandshake_bitfield (s : HState) (ih pid : Bytes) (rep : Rep) (s' : HState) (c : Cont) (x y : HOut) (bs : Bytes)
+    (h : onHandshake s ih pid rep = some (s', [x, y, .write (.bitfield bs)], c)) : rep = .bitfield bs := by
+  unfold onHandshake at h
+  by_cases h1 : ih ≠ s.infoHash
+  · rw [if_pos h1] at h; simp at h
+  · rw [if_neg h1] at h
+    cases hp : s.peerId with
+    | none =>
+      rw [hp] at h
+      simp only [Bool.false_eq_true, if_false, Option.isNone_none, if_true] at h
+      cases rep with
+      | bitfield b =>
+        simp only [initHandshake, Option.some.injEq, Prod.mk.injEq, List.cons.injEq, HOut.write.injEq,
+          Msg.bitfield.injEq] at h
+        rw [h.2.1.2.2.1]
+      | _ => simp [initHandshake] at h
+    | some e =>
+      rw [hp] at h
+      by_cases h2 : pid ≠ e
+      · have hd : decide (pid ≠ e) = true := decide_eq_true h2
+        simp [hd] at h
+      · have hd : decide (pid ≠ e) = false := decide_eq_false h2
+        simp [hd] at h
+
+theorem step11_sound (sha1 : Bytes → Bytes) (st : M11) (s : HState) (inp : TIn) (s' : HState) (o : List HOut)
+    (e : Option Bool) (hR : R11 st s) (h : tstep sha1 s inp = some (s', o, e)) :
+    ∃ st', step11 st (inp, o.filterMap (obsOf sha1), e) = some st' ∧ R11 st' s' := by
+  cases ha : s.alive with
+  | false =>
+    rw [tstep_dead sha1 s ha inp] at h; cases h
+    refine ⟨st, ?_, hR⟩
+    simp [step11, hR.1, ha, deadOk]
+  | true =>
+    have hg : (!s.alive) = false := by simp [ha]
+    have hlive : (!st.alive) = false := by rw [hR.1, ha]; rfl
+    obtain ⟨hc, hb⟩ := hR.2 ha
+    have ns : ∀ (x : TIn), (∀ i rep, x ≠ .bcHave i rep) → (∀ rep d, x ≠ .frame .choke rep d) →
+        (∀ rep d, x ≠ .frame .unchoke rep d) →
+        (∀ i rep, x ≠ .bcHave i rep) ∧ (∀ rep d, x ≠ .frame .choke rep d) ∧ (∀ rep d, x ≠ .frame .unchoke rep d) :=
+      fun _ a b c => ⟨a, b, c⟩
+    cases inp with
+    | ticks k =>
+      simp only [tstep, ticks_facts s ha, Option.some.injEq, Prod.mk.injEq] at h
+      obtain ⟨rfl, rfl, rfl⟩ := h
+      refine accept_quiet sha1 st s _ _ _ _ hR ha (quiet_replicate_ka _) (ns _ (by simp) (by simp) (by simp)) ⟨?_, fun _ => ⟨rfl, rfl⟩⟩
+      generalize (kaRun KEEP_ALIVE_LIMIT s.keepAlive k).2.2 = b
+      cases b <;> rfl
+    | eof =>
+      simp only [tstep, hstep, hg, Bool.false_eq_true, if_false, terminate] at h
+      cases h
+      exact accept_quiet sha1 st s _ _ _ _ hR ha quiet_nil (ns _ (by simp) (by simp) (by simp)) ⟨rfl, fun c => by cases c⟩
+    | recvErr =>
+      simp only [tstep, hstep, hg, Bool.false_eq_true, if_false, terminate] at h
+      cases h
+      exact accept_quiet sha1 st s _ _ _ _ hR ha quiet_nil (ns _ (by simp) (by simp) (by simp)) ⟨rfl, fun c => by cases c⟩
+    | bcState en =>
+      simp only [tstep, hstep, hg, Bool.false_eq_true, if_false] at h
+      split at h <;> cases h <;>
+        exact accept_quiet sha1 st s _ _ _ _ hR ha ⟨rfl, rfl⟩ (ns _ (by simp) (by simp) (by simp)) ⟨ha, fun _ => ⟨rfl, rfl⟩⟩
+    | start rep =>
+      simp only [tstep, hstart, hg, Bool.false_eq_true, if_false] at h
+      split at h
+      · rename_i pid hpid
+        cases rep with
+        | bitfield bs =>
+          simp only [initHandshake, Option.some.injEq, Prod.mk.injEq] at h
+          obtain ⟨rfl, rfl, rfl⟩ := h
+          refine ⟨{ st with alive := true }, ?_, ⟨ha.symm, fun _ => ⟨hc, hb⟩⟩⟩
+          simp [step11, hlive, step11c, bitfieldWrites, haveWrites, writes, obsOf]
+        | _ => simp [initHandshake] at h
+      · cases h
+        exact accept_quiet sha1 st s _ _ _ _ hR ha quiet_nil (ns _ (by simp) (by simp) (by simp)) ⟨ha, fun _ => ⟨rfl, rfl⟩⟩
+    | bcHave i rep =>
+      simp only [tstep, hstep, hg, Bool.false_eq_true, if_false] at h
+      -- the cancellation part announces nothing and keeps the mirrored fields
+      have inner : ∀ (r : Option (HState × List HOut)),
+          (∀ s1 o1, r = some (s1, o1) → Keep s s1 ∧ Quiet o1 ∧ s1.alive = true) →
+          (match r with
+            | none => (none : Option HRes)
+            | some (s1, o1) =>
+              if s1.choked = true then some ({ s1 with msgBuff := s1.msgBuff ++ [i] }, o1, none)
+              else some (s1, o1 ++ [HOut.write (Msg.haveP i)], none)) = some (s', o, e) →
+          ∃ st', step11 st (.bcHave i rep, o.filterMap (obsOf sha1), e) = some st' ∧ R11 st' s' := by
+        intro r hr hm
+        cases r with
+        | none => cases hm
+        | some p =>
+          obtain ⟨s1, o1⟩ := p
+          obtain ⟨hk, hq, hal⟩ := hr s1 o1 rfl
+          simp only at hm
+          have hbf1 : bitfieldWrites (o1.filterMap (obsOf sha1)) = [] := by rw [bitfieldWrites_obs]; exact hq.2
+          have hh1 : haveWrites (o1.filterMap (obsOf sha1)) = [] := by rw [haveWrites_obs]; exact hq.1
+          by_cases hch : s1.choked = true
+          · rw [if_pos hch] at hm; cases hm
+            have hstc : st.choked = true := by rw [hc, ← hk.1]; exact hch
+            refine ⟨{ st with buffered := st.buffered ++ [i], alive := true }, ?_, ⟨hal.symm, fun _ => ⟨?_, ?_⟩⟩⟩
+            · simp [step11, hlive, step11c, hbf1, hh1, hstc]
+            · exact hc.trans hk.1.symm
+            · show st.buffered ++ [i] = s1.msgBuff ++ [i]; rw [hk.2, hb]
+          · rw [if_neg hch] at hm; cases hm
+            have hstc : st.choked = false := by
+              rw [hc, ← hk.1]; simpa using hch
+            have hbf2 : bitfieldWrites ((o1 ++ [HOut.write (Msg.haveP i)]).filterMap (obsOf sha1)) = [] := by
+              rw [bitfieldWrites_obs, bfsO_append, hq.2]; rfl
+            have hh2 : haveWrites ((o1 ++ [HOut.write (Msg.haveP i)]).filterMap (obsOf sha1)) = [i] := by
+              rw [haveWrites_obs, hvsO_append, hq.1]; rfl
+            rw [List.filterMap_append] at hbf2 hh2
+            refine ⟨{ st with alive := true }, ?_, ⟨hal.symm, fun _ => ⟨?_, ?_⟩⟩⟩
+            · simp [step11, hlive, step11c, hbf2, hh2, hstc]
+            · exact hc.trans hk.1.symm
+            · exact hb.trans hk.2.symm
+      cases hrx : s.pieceRx with
+      | none =>
+        rw [hrx] at h
+        exact inner (some (s, [])) (fun s1 o1 ee => by cases ee; exact ⟨keep_refl s, quiet_nil, ha⟩) h
+      | some rx =>
+        rw [hrx] at h
+        simp only at h
+        by_cases hi : rx.index = i
+        · simp only [hi, if_true] at h
+          cases hpf : pieceFinishReply { s with pieceRx := none } rep with
+          | none => rw [hpf] at h; cases h
+          | some t =>
+            obtain ⟨s2, o2, b2⟩ := t
+            rw [hpf] at h
+            obtain ⟨hk2, hq2⟩ := pieceFinishReply_adv _ _ _ _ _ hpf
+            obtain ⟨_, hal2, _⟩ := pieceFinishReply_core _ _ _ _ _ hpf
+            exact inner (some (s2, _)) (fun s1 o1 ee => by
+              cases ee
+              exact ⟨keep_trans (b := { s with pieceRx := none }) ⟨rfl, rfl⟩ hk2,
+                quiet_append (quiet_append (quiet_cancels i _) ⟨rfl, rfl⟩) hq2, by rw [hal2]; exact ha⟩) h
+        · simp only [hi, if_false] at h
+          exact inner (some (s, [])) (fun s1 o1 ee => by cases ee; exact ⟨keep_refl s, quiet_nil, ha⟩) h
+    | frame m rep d =>
+      simp only [tstep, hstep, hg, Bool.false_eq_true, if_false] at h
+      cases hf : handleFrame sha1 (diskOf d) s m rep with
+      | none => rw [hf] at h; cases h
+      | some r =>
+        obtain ⟨s1, o1, c⟩ := r
+        rw [hf] at h
+        obtain ⟨_, hal1, _⟩ := handleFrame_core sha1 _ s m rep s1 o1 c hf
+        -- the result of the step in terms of (s1, o1, c)
+        have hres : o = o1 ∧ ((c = .go ∧ s' = s1 ∧ e = none) ∨ (c ≠ .go ∧ s'.alive = false ∧ e.isNone = false)) := by
+          cases c with
+          | go => cases h; exact ⟨rfl, Or.inl ⟨rfl, rfl, rfl⟩⟩
+          | endNormal => simp only [terminate] at h; cases h; exact ⟨rfl, Or.inr ⟨by simp, rfl, rfl⟩⟩
+          | endError => simp only [terminate] at h; cases h; exact ⟨rfl, Or.inr ⟨by simp, rfl, rfl⟩⟩
+        obtain ⟨rfl, hcase⟩ := hres
+        have halive' : s'.alive = e.isNone := by
+          rcases hcase with ⟨_, rfl, rfl⟩ | ⟨_, h1, h2⟩
+          · rw [hal1]; exact ha
+          · rw [h1, h2]
+        -- what `handle_frame` did
+        unfold handleFrame at hf
+        simp only at hf
+        split at hf
+        · -- refused before the handshake: nothing written, the task ends
+          cases hf
+          have hend : e.isNone = false := by
+            rcases hcase with ⟨hc', _, _⟩ | ⟨_, _, h2⟩
+            · cases hc'
+            · exact h2
+          have hsd : s'.alive = false := by rw [halive', hend]
+          refine ⟨{ st with alive := false, choked := st.choked }, ?_, ⟨by simp [hsd], fun c => by rw [hsd] at c; cases c⟩⟩
+          have he : e.isNone = false := hend
+          cases m <;> (try cases rep) <;>
+            simp [step11, hlive, step11c, bitfieldWrites, haveWrites, writes, cmds, he]
+        · -- dispatched
+          cases hm : isHandshake m with
+          | true =>
+            cases m with
+            | handshake ih pid =>
+              simp only [dispatch] at hf
+              rcases onHandshake_cases _ ih pid rep s1 o c hf with ⟨_, rfl, rfl, rfl⟩ | ⟨_, hpn, rfl, rfl, bs, rfl⟩ | ⟨_, _, rfl, rfl, rfl⟩
+              · -- rejected
+                refine accept_quiet sha1 st s _ _ _ _ hR ha quiet_nil (ns _ (by simp) (by simp) (by simp)) ⟨halive', fun he => ?_⟩
+                rcases hcase with ⟨hc', _, _⟩ | ⟨_, _, h2⟩
+                · cases hc'
+                · rw [h2] at he; cases he
+              · -- accepted on an incoming connection: our handshake, Init, the manager's bitfield
+                rcases hcase with ⟨_, rfl, rfl⟩ | ⟨hc', _, _⟩
+                · -- the bitfield written is the one of the reply
+                  have hrep := onHandshake_bitfield _ ih pid rep _ _ _ _ bs hf
+                  subst hrep
+                  refine ⟨{ st with alive := true }, ?_, ⟨by simp [ha], fun _ => ⟨hc, hb⟩⟩⟩
+                  simp [step11, hlive, step11c, bitfieldWrites, haveWrites, writes, obsOf]
+                · exact absurd rfl hc'
+              · -- accepted where the id was known: nothing is written
+                rcases hcase with ⟨_, rfl, rfl⟩ | ⟨hc', _, _⟩
+                · exact accept_quiet sha1 st s _ _ _ _ hR ha quiet_nil (ns _ (by simp) (by simp) (by simp))
+                    ⟨by simp [ha], fun _ => ⟨rfl, rfl⟩⟩
+                · exact absurd rfl hc'
+            | _ => simp [isHandshake] at hm
+          | false =>
+            by_cases hmc : m = .choke
+            · subst hmc
+              simp only [dispatch, Option.some.injEq, Prod.mk.injEq] at hf
+              obtain ⟨rfl, rfl, rfl⟩ := hf
+              rcases hcase with ⟨_, rfl, rfl⟩ | ⟨hc', _, _⟩
+              · refine ⟨{ st with choked := true, alive := true }, ?_, ⟨by simp [ha], fun _ => ⟨rfl, hb⟩⟩⟩
+                simp [step11, hlive, step11c, bitfieldWrites, haveWrites, writes, cmds, obsOf]
+              · exact absurd rfl hc'
+            · by_cases hmu : m = .unchoke
+              · subst hmu
+                simp only [dispatch] at hf
+                obtain ⟨hmb, hch, _, rest, rfl, hq⟩ := onUnchoke_adv _ rep s1 _ c hf
+                have hcm : (cmds ((List.map (fun i => HOut.write (Msg.haveP i)) s.msgBuff ++ [HOut.cmd Cmd.recvUnchoke] ++ rest).filterMap (obsOf sha1))).contains Cmd.recvUnchoke = true := by
+                  rw [cmds_obs, cmO_append, cmO_append]
+                  simp [cmO]
+                have hhv : haveWrites ((List.map (fun i => HOut.write (Msg.haveP i)) s.msgBuff ++ [HOut.cmd Cmd.recvUnchoke] ++ rest).filterMap (obsOf sha1)) = st.buffered := by
+                  rw [haveWrites_obs, hvsO_append, hvsO_append, hvsO_flush, hq.1, hb]; simp [hvsO]
+                have hbf : bitfieldWrites ((List.map (fun i => HOut.write (Msg.haveP i)) s.msgBuff ++ [HOut.cmd Cmd.recvUnchoke] ++ rest).filterMap (obsOf sha1)) = [] := by
+                  rw [bitfieldWrites_obs, bfsO_append, bfsO_append, bfsO_flush, hq.2]; simp [bfsO]
+                have htk : (writes ((List.map (fun i => HOut.write (Msg.haveP i)) s.msgBuff ++ [HOut.cmd Cmd.recvUnchoke] ++ rest).filterMap (obsOf sha1))).take st.buffered.length = st.buffered.map .haveP := by
+                  rw [writes_obs, wrO_append, wrO_append, wrO_flush, hb, List.append_assoc]
+                  rw [List.take_left' (by simp)]
+                refine ⟨{ choked := false, buffered := [], alive := e.isNone }, ?_, ⟨halive'.symm, fun hal => ?_⟩⟩
+                · simp only [step11, hlive, Bool.false_eq_true, if_false, step11c, hbf, hcm, hhv, htk]
+                  simp
+                · rcases hcase with ⟨_, rfl, rfl⟩ | ⟨_, h1, _⟩
+                  · exact ⟨hch.symm, hmb.symm⟩
+                  · rw [h1] at hal; cases hal
+              · -- every other message
+                obtain ⟨hk, hq⟩ := dispatch_adv sha1 _ _ m rep hm hmc hmu s1 _ c hf
+                refine accept_quiet sha1 st s _ _ _ _ hR ha hq
+                  (ns _ (by simp) (fun rep d hh => by cases hh; exact hmc rfl) (fun rep d hh => by cases hh; exact hmu rfl))
+                  ⟨halive', fun he => ?_⟩
+                rcases hcase with ⟨_, rfl, rfl⟩ | ⟨_, _, h2⟩
+                · exact ⟨hk.1, hk.2⟩
+                · rw [h2] at he; cases he
+
+/-- **C11, whole trace (every script).** The observable behaviour of the connection task satisfies the announcement
+    discipline `P11`: a `Have` is written only in reaction to the manager's `SendHave` (at once when the peer does not
+    choke us, otherwise after its next `Unchoke`, first and in completion order), and the only bitfield ever written
+    is the one the manager computed at `Init` — from any live state (with the monitor started on its flags). -/
+theorem C11_trace (sha1 : Bytes → Bytes) (s : HState) (halive : s.alive = true) (script : List TIn) :
+    checkTrace step11 { choked := s.choked, buffered := s.msgBuff, alive := true } (runTrace sha1 s script) = true :=
+  checkTrace_run sha1 step11 R11 (fun st s inp s' o e hR h => step11_sound sha1 st s inp s' o e hR h)
+    script _ s ⟨halive.symm, fun _ => ⟨rfl, rfl⟩⟩
+
+/-- In the property's initial condition (fresh connection: the peer chokes us, nothing held back) this is `P11`. -/
+theorem C11_trace_fresh (sha1 : Bytes → Bytes) (s : HState) (halive : s.alive = true) (hc : s.choked = true)
+    (hb : s.msgBuff = []) (script : List TIn) : P11 (runTrace sha1 s script) = true := by
+  have := C11_trace sha1 s halive script
+  rw [hc, hb] at this
+  exact this
 
 /-! ### Non-vacuity (tests) -/
 example : initBitfield [.have, .missing, .reserved 1, .have] = [0x90] := by
